@@ -458,3 +458,61 @@ def coqchk_once(chk, dirs):
     if res["rc"] != 0:
         chk.add_violation("proof:coqchk", "coqchk rejected the compiled development: " + res["tail"][-800:], found_input=False)
     return res
+
+
+# --------------------------------------------------------------------------- S-expressions (python side)
+def parse_sexp(s):
+    """Parse one S-expression in the harness format. Atoms -> str, strings -> bytes, lists -> list."""
+    pos = 0
+    n = len(s)
+
+    def skip():
+        nonlocal pos
+        while pos < n and s[pos] in " \t\r\n":
+            pos += 1
+
+    def item():
+        nonlocal pos
+        skip()
+        c = s[pos]
+        if c == "(":
+            pos += 1
+            out = []
+            while True:
+                skip()
+                if s[pos] == ")":
+                    pos += 1
+                    return out
+                out.append(item())
+        if c == '"':
+            pos += 1
+            b = bytearray()
+            while s[pos] != '"':
+                if s[pos] == "\\":
+                    b.append(int(s[pos + 1:pos + 3], 16))
+                    pos += 3
+                else:
+                    b.extend(s[pos].encode("latin-1", "replace"))
+                    pos += 1
+            pos += 1
+            return bytes(b)
+        st = pos
+        while pos < n and s[pos] not in ' \t\r\n()"':
+            pos += 1
+        return s[st:pos]
+
+    return item()
+
+
+def coq_bytes_lit(b):
+    return "[" + ";".join(str(x) for x in b) + "]"
+
+
+def coq_eval(chk, name, source, timeout=900):
+    """Compile a generated .v under coq/gen/ (not part of the project) and return coqc's output."""
+    d = os.path.join(WORK, "coqeval")
+    os.makedirs(d, exist_ok=True)
+    p = os.path.join(d, name + ".v")
+    open(p, "w").write(source)
+    rc, out = sh("coqc -Q %s Gv -w -notation-overridden %s" % (COQ, p), cwd=d, timeout=timeout)
+    return rc, out
